@@ -1031,8 +1031,9 @@ KNOWN_CLASS = {"F4": (M_DRAINLEFT, "F4_witness.cases"), "F5": (M_PREPHELD, "F5_w
 
 # theorems pinned per property (coq/Props/<prop>.v)
 PINS = {
-    "C01": ["C01_exactly_once_fifo", "F4_refuted"], "C02": [], "C03": [], "C04": [], "C05": [], "C06": [],
-    "C15": ["C15_time"], "C16": [], "C20": [],
+    "C01": ["C01_exactly_once_fifo", "F4_refuted"], "C02": ["C02_order_gating_partial"], "C03": ["C03_once_partial"],
+    "C04": ["C04_owner_count_partial"], "C05": ["C05_ret_once_partial"], "C06": ["C06_main_quiescent_partial"],
+    "C15": ["C15_time"], "C16": ["C16_heap_partial"], "C20": ["C20_open_close_partial", "C20_filter_table"],
 }
 PROOF_FILES = ["R/Syntax.v", "R/Rt.v", "R/Mon.v"]
 
@@ -1260,7 +1261,7 @@ def run(prop, tier, seed):
         rc = 1
     # --- evidence
     ev.violations = len(violations) + (1 if (problems and not violations) else 0)
-    nth = vlib.count_theorems(PROOF_FILES + ["R/%s" % f for f in os.listdir(os.path.join(vlib.COQ, "R")) if f.endswith(".v") and "Proof" in f] + ["Props/%s.v" % prop])
+    nth = vlib.count_theorems(vlib.coq_deps("Props/%s.v" % prop))
     ev.cov.update(dict(
         obligations=max(audit["obligations"], nth), discharged=(max(audit["discharged"], nth) if audit["ok"] else 0),
         checker_cmd="make -C coq Props/%s.vo (coqc 8.16.1, full .vo) ; Print Assumptions of %s" % (prop, ", ".join(PINS.get(prop, [])) or "-"),
